@@ -35,6 +35,7 @@ PROFILES = {
     "ref4": prof2("MovesRef", 4, [[1, 2]]),
     "reroot3": prof2("MovesReroot", 3, [[1, 1], [6, 6]], overrides=dict(Moves="MovesReroot", SrcHeaps="SrcHeapsOne")),
     "reroot4": prof2("MovesReroot", 4, [[1, 1]], overrides=dict(Moves="MovesReroot", SrcHeaps="SrcHeapsOne")),
+    "rerootagg5": prof2("MovesRerootAgg", 5, [[1, 1], [6, 6]], overrides=dict(Moves="MovesRerootAgg", SrcHeaps="SrcHeapsOne")),
     "equiv1": prof2("MovesEquiv", 1, [[1, 2], [1, 3], [6, 2], [4, 2], [5, 3]], invariants=["EquivHolds", "ScopeWF"]),
     "equiv2": prof2("MovesEquiv", 2, [[1, 2], [1, 3], [6, 2], [4, 2], [7, 3]], invariants=["EquivHolds", "ScopeWF"]),
     "equiv_tall": prof2("MovesEquiv", 1, [[9, 2]], invariants=["EquivHolds"]),
@@ -193,7 +194,7 @@ CHECKS = {
     "C16": dict(
         level="model_checking",
         clauses=GEN_CLAUSES_SPEC | {"errclass", "getname"},
-        phases=dict(quick=[dict(profile="reroot3")], thorough=[dict(profile="reroot3"), dict(profile="reroot4")]),
+        phases=dict(quick=[dict(profile="reroot3"), dict(profile="rerootagg5")], thorough=[dict(profile="reroot3"), dict(profile="reroot4"), dict(profile="rerootagg5")]),
     ),
     "C10": dict(
         level="model_checking",
